@@ -225,6 +225,10 @@ def run(ctx):
     from .centers import check_wfn_primitive_lists
 
     check_wfn_primitive_lists(ctx, "R18")
+    ctx.rule("R19", "Molden: the atom number that heads a [GTO] block attaches its shells to that atom when read (writer part and reader routine evaluated)", "blocks numbered consecutively instead of by atom: with an atom that carries no functions every later shell moves to another nucleus")
+    from .centers import check_molden_centers
+
+    check_molden_centers(ctx, "R19")
     ctx.rule("R11", "segmentation before writing keeps every contraction, in order (evaluated)", "an SP / PS / general contraction is re-ordered or merged on the way to the file while the coefficient rows stay where they were")
     check_segmentation(ctx, "R11", "R11")
     ctx.rule("R9", "written coefficient rows are signs[r] x rows[permutation[r]] (symbolic evaluation of the writer expressions)", "signs are attached to the rows before they are moved (or the permutation is applied twice / on the wrong axis): coefficients of sign-flipped functions change sign or position")
